@@ -64,14 +64,20 @@ def run_coqcases(chk, pid, runner, tier, seed, workdir, log, only_key):
 
 RUNNERS = {"coqcases": run_coqcases}
 
-PROPS = {
-    "C12": {
-        "runners": [{
-            "kind": "coqcases", "harness": "c12", "corr": "Run/CorrC12.v (model of sliceOps vs /repo/sliceOps)",
-            "rule": "each case = one call of a sliceOps function on generated input, run on the real code at element types int, string and *T (which must agree) and compared in Coq with the model proved equal to the specification; distinct = by (function, arguments); non-trivial = list ops that actually move elements (i<j, non-empty v, something filtered, non-empty pop) and set ops with a duplicate inside an argument or >= 2 arguments.",
-        }],
-        "trusted": ["builtin copy/append/make and map-as-set are modelled by contract (go_copy, mem)",
-                    "aliasing of results with inputs is observed by the harness only (value-semantics model)"],
-        "assumptions": ["element == is reflexive (no NaN-bearing elements)", "valid index ranges only (i <= j <= len): outside them Go panics or over-extends, excluded by the property"],
-    },
-}
+
+import importlib.util, glob
+
+PROPS = {}
+META = {}
+KNOWN = []
+_here = os.path.dirname(os.path.abspath(__file__))
+for _f in sorted(glob.glob(os.path.join(_here, "props", "C*.py"))):
+    _spec = importlib.util.spec_from_file_location("prop_" + os.path.basename(_f)[:-3], _f)
+    _m = importlib.util.module_from_spec(_spec)
+    _spec.loader.exec_module(_m)
+    _pid = os.path.basename(_f)[:-3]
+    PROPS[_pid] = _m.SPEC
+    META[_pid] = _m.META
+    KNOWN += getattr(_m, "KNOWN", [])
+    RUNNERS.update(getattr(_m, "RUNNERS", {}))
+    HARNESS_BUILD_FLAGS.update(getattr(_m, "HARNESS_BUILD_FLAGS", {}))
